@@ -84,7 +84,9 @@ def configs():
                 # ... and current values with blanks around them (an environment variable, a line read from a file): "linux " is not "linux"
                 ("str", "linux "), ("lazy", " win"), ("vo", "mac\n", "eq")]
     n_specs = [None, ("num", 3, "eq"), ("num", 3, "ge"), ("num", 3, "le"), ("num", 4, "ge"), ("num", 5, "le"),
-               ("str", "3"), ("numlazy", 5, "eq")]
+               ("str", "3"), ("numlazy", 5, "eq"),
+               # current values that are numbers but not integers (a measured 3.5), given directly or computed lazily
+               ("numlazy", 3.5, "le"), ("numlazy", 3.5, "eq"), ("num", 3.5, "ge")]
     flag_specs = [None, ("bool", True), ("bool", False)]
     ab_specs = [None, ("str", "v"), ("str", "w")]
     for o in os_specs:
